@@ -17,6 +17,8 @@
 (*   T.id   the name under which the block's ID is known: itself, except   *)
 (*          for a "variant" -- a block that carries the id of another block*)
 (*          with different content (a v2 id does not cover the payout)     *)
+(*   T.v1   TRUE for a v1 block (legal below the v2 require height; only   *)
+(*          used by Sync.tla)                                              *)
 (*   T.lo, T.hi  integer ranks with                                        *)
 (*            a sufficiently heavier than b  <=>  lo[a] > hi[b]            *)
 (*          (core State.SufficientlyHeavierThan: TotalWork(a) >            *)
